@@ -13,6 +13,7 @@ import (
 	"io"
 	"math"
 	"strconv"
+	"strings"
 
 	"github.com/jf-tech/omniparser/extensions/omniv21/fileformat"
 	"github.com/jf-tech/omniparser/extensions/omniv21/fileformat/edi"
@@ -183,42 +184,62 @@ type nodeReader interface {
 	Release(*idr.Node)
 }
 
-// pump reads until the first terminal result.  release: 0 always, 1 never, 2 every other one.
-func pump(rd nodeReader, cap int, release int, classify func(error, *Result)) (res *Result) {
-	res = &Result{}
+// stepper drives one reader Read by Read (so that several readers can be alive and advanced in
+// turns); release: 0 always, 1 never, 2 every other one.
+type stepper struct {
+	rd       nodeReader
+	res      *Result
+	done     bool
+	i, cap   int
+	release  int
+	classify func(error, *Result)
+}
+
+func (s *stepper) step() {
+	if s.done {
+		return
+	}
 	defer func() {
 		if p := recover(); p != nil {
-			res.Term = "panic"
-			res.Detail = fmt.Sprint(p)
+			s.res.Term = "panic"
+			s.res.Detail = fmt.Sprint(p)
+			s.done = true
 		}
 	}()
-	for i := 0; ; i++ {
-		if i > cap {
-			res.Term = "other"
-			res.Detail = "no terminal result within the Read cap"
-			return res
-		}
-		n, err := rd.Read()
-		if err == nil {
-			if n == nil {
-				res.Term = "other"
-				res.Detail = "Read returned (nil, nil)"
-				return res
-			}
-			res.Deliv = append(res.Deliv, project(n))
-			if release == 0 || (release == 2 && i%2 == 0) {
-				rd.Release(n)
-			}
-			continue
-		}
-		res.Detail = err.Error()
-		if err == io.EOF {
-			res.Term = "eof"
-		} else {
-			classify(err, res)
-		}
-		return res
+	if s.i > s.cap {
+		s.res.Term, s.res.Detail, s.done = "other", "no terminal result within the Read cap", true
+		return
 	}
+	i := s.i
+	s.i++
+	n, err := s.rd.Read()
+	if err == nil {
+		if n == nil {
+			s.res.Term, s.res.Detail, s.done = "other", "Read returned (nil, nil)", true
+			return
+		}
+		s.res.Deliv = append(s.res.Deliv, project(n))
+		if s.release == 0 || (s.release == 2 && i%2 == 0) {
+			s.rd.Release(n)
+		}
+		return
+	}
+	s.res.Detail = err.Error()
+	if err == io.EOF {
+		s.res.Term = "eof"
+	} else {
+		s.classify(err, s.res)
+	}
+	s.done = true
+}
+
+// pump reads until the first terminal result.
+func pump(rd nodeReader, cap int, release int, classify func(error, *Result)) *Result {
+	s := &stepper{rd: rd, res: &Result{}, cap: cap, release: release, classify: classify}
+	for !s.done {
+		s.step()
+	}
+	return s.res
 }
 
 func runDirect(ds []*Decl, us []Unit, release int, filter bool) *Result {
@@ -395,9 +416,13 @@ func inputFor(driver string, us []Unit) []byte {
 	for _, u := range us {
 		switch driver {
 		case "csv2":
-			fmt.Fprintf(&sb, "%s,%d,%s\n", nameStr(u.Name), u.ID, flagOf(u))
+			fmt.Fprintf(&sb, "%s,%d,%s", nameStr(u.Name), u.ID, flagOf(u))
+			if u.Pad > 0 {
+				sb.WriteString("," + strings.Repeat("p", u.Pad))
+			}
+			sb.WriteString("\n" + strings.Repeat("\n", u.Blank))
 		case "fixedlength2":
-			fmt.Fprintf(&sb, "%s%04d%s\n", nameStr(u.Name), u.ID, flagOf(u))
+			fmt.Fprintf(&sb, "%s%04d%s%s\n%s", nameStr(u.Name), u.ID, flagOf(u), strings.Repeat("p", u.Pad), strings.Repeat("\n", u.Blank))
 		default:
 			fmt.Fprintf(&sb, "%s*%d*%s*%s~", nameStr(u.Name), u.ID, flagOf(u), u.Txt)
 		}
@@ -432,18 +457,30 @@ func validate(driver, schema string, filter bool) (rt interface{}, err error) {
 	return ff.ValidateSchema(format, []byte(schema), fo)
 }
 
-// runFormat runs the real format reader; the schema must have been accepted.
-func runFormat(driver string, rt interface{}, input []byte, nunits int, release int) *Result {
+// formatStepper creates the real format reader; the schema must have been accepted.
+func formatStepper(driver string, rt interface{}, input []byte, nunits int, release int) (*stepper, *Result) {
 	ff, _, isFatal := formatOf(driver)
 	rd, err := ff.CreateFormatReader("in", bytes.NewReader(input), rt)
 	if err != nil {
-		return &Result{Term: "other", Detail: "CreateFormatReader: " + err.Error()}
+		return nil, &Result{Term: "other", Detail: "CreateFormatReader: " + err.Error()}
 	}
-	return pump(rd, nunits+3, release, func(err error, res *Result) {
+	return &stepper{rd: rd, res: &Result{}, cap: nunits + 3, release: release, classify: func(err error, res *Result) {
 		if isFatal(err) {
 			res.Term = "fatal"
 		} else {
 			res.Term = "other"
 		}
-	})
+	}}, nil
+}
+
+// runFormat runs the real format reader to its terminal result.
+func runFormat(driver string, rt interface{}, input []byte, nunits int, release int) *Result {
+	s, bad := formatStepper(driver, rt, input, nunits, release)
+	if bad != nil {
+		return bad
+	}
+	for !s.done {
+		s.step()
+	}
+	return s.res
 }
